@@ -31,13 +31,13 @@ type vfC13Sess struct {
 }
 
 type vfC13Peer struct {
-	mu        sync.Mutex
-	plan      []string // behaviour of the next connections: ok (default) | refuse | garbage | sasl-failure
-	sessions  []*vfC13Sess
-	attempts  int32
+	mu          sync.Mutex
+	plan        []string // behaviour of the next connections: ok (default) | refuse | garbage | sasl-failure
+	sessions    []*vfC13Sess
+	attempts    int32
 	established chan *vfC13Sess
-	sm        bool
-	firstDone bool
+	sm          bool
+	firstDone   bool
 }
 
 func (p *vfC13Peer) next() string {
@@ -213,7 +213,21 @@ func vfC13Run(run *vfkit.Run, cs *vfC13Case) {
 	}
 	obs.catchAll(router)
 	var postConnect int32
-	sm := NewStreamManager(c, func(s Sender) { atomic.AddInt32(&postConnect, 1) })
+	// blockNext: the next PostConnect invocation waits on the returned channel (a slow application callback)
+	var pcMu sync.Mutex
+	var pcBlock chan struct{}
+	var pcEntered chan struct{}
+	sm := NewStreamManager(c, func(s Sender) {
+		atomic.AddInt32(&postConnect, 1)
+		pcMu.Lock()
+		b, ent := pcBlock, pcEntered
+		pcBlock, pcEntered = nil, nil
+		pcMu.Unlock()
+		if b != nil {
+			close(ent)
+			<-b
+		}
+	})
 	runDone := make(chan error, 1)
 	go func() { runDone <- sm.Run() }()
 	stopped := false
@@ -305,6 +319,47 @@ func vfC13Run(run *vfkit.Run, cs *vfC13Case) {
 		switch {
 		case f == "rst" || f == "fin" || f == "graceful":
 			cur.cmds <- f
+		case f == "loss-in-postconnect":
+			// the session that follows this loss is itself lost while the application's post-connect callback is
+			// still running: one more session must come up (three in all for this fault)
+			block, entered := make(chan struct{}), make(chan struct{})
+			pcMu.Lock()
+			pcBlock, pcEntered = block, entered
+			pcMu.Unlock()
+			cur.cmds <- "rst"
+			mid := waitSession(30 * time.Second)
+			if mid == nil {
+				close(block)
+				run.Inconclusive("loss-in-postconnect:no-intermediate-session")
+				stop()
+				return
+			}
+			nEst++
+			select {
+			case <-entered:
+			case <-time.After(15 * time.Second):
+				close(block)
+				run.Inconclusive("loss-in-postconnect:callback-not-entered")
+				stop()
+				return
+			}
+			mid.cmds <- "rst" // lost while PostConnect is running
+			defer func(b chan struct{}) {
+				select {
+				case <-b:
+				default:
+					close(b)
+				}
+			}(block)
+			// the callback returns only after the loss has been noticed by the client
+			go func() {
+				vfWaitUntil(10*time.Second, func() bool { return len(obs.Errors()) >= 2 })
+				select {
+				case <-block:
+				default:
+					close(block)
+				}
+			}()
 		case strings.HasPrefix(f, "refuse-"):
 			m := int(f[len(f)-1] - '0')
 			vp.mu.Lock()
@@ -441,7 +496,7 @@ func TestVf_C13(t *testing.T) {
 		vfC13Run(run, &rc)
 		return
 	}
-	alphabet := []string{"rst", "fin", "graceful", "refuse-1", "refuse-2", "refuse-4", "down-1", "down-2", "garbage", "permanent-sasl"}
+	alphabet := []string{"rst", "fin", "graceful", "refuse-1", "refuse-2", "refuse-4", "down-1", "down-2", "garbage", "loss-in-postconnect", "permanent-sasl"}
 	var cases []*vfC13Case
 	// every single fault, with and without SM
 	for _, smOn := range []bool{false, true} {
